@@ -174,6 +174,116 @@ theorem later_importance_wins (q : String) : ∀ (is : List Item) (k : KW),
         | imp ps v => simp [lookup_set_imp]; split <;> simp_all
         | _ => simp [KW.set]
 
+/-! ### token level -/
+
+theorem kwRun_append : ∀ (a b : List String) (st : KwState × List Item),
+    kwRun st (a ++ b) = match kwRun st a with | .ok st' => kwRun st' b | .error e => .error e
+  | [], b, st => by simp [kwRun]
+  | t :: a, b, st => by
+      simp only [List.cons_append, kwRun]
+      cases h : kwStep st t with
+      | error e => rfl
+      | ok st' => exact kwRun_append a b st'
+
+/-- the items already emitted do not influence what is emitted next -/
+theorem kwStep_acc (s : KwState) (acc acc0 : List Item) (tok : String) :
+    kwStep (s, acc0 ++ acc) tok = (kwStep (s, acc) tok).map fun r => (r.1, acc0 ++ r.2) := by
+  cases s <;> simp [kwStep, Except.map, List.append_assoc] <;> (try split) <;> simp_all [Except.map, List.append_assoc]
+
+theorem kwRun_acc : ∀ (toks : List String) (s : KwState) (acc acc0 : List Item),
+    kwRun (s, acc0 ++ acc) toks = (kwRun (s, acc) toks).map fun r => (r.1, acc0 ++ r.2)
+  | [], s, acc, acc0 => by simp [kwRun, Except.map]
+  | t :: ts, s, acc, acc0 => by
+      simp only [kwRun, kwStep_acc]
+      cases h : kwStep (s, acc) t with
+      | error e => simp [Except.map]
+      | ok r =>
+        obtain ⟨s', acc'⟩ := r
+        simp only [Except.map]
+        exact kwRun_acc ts s' acc' acc0
+theorem kwFinish_acc (s : KwState) (acc acc0 : List Item) :
+    kwFinish (s, acc0 ++ acc) = (kwFinish (s, acc)).map fun r => acc0 ++ r := by
+  cases s <;> simp [kwFinish, Except.map, List.append_assoc]
+
+theorem finish_run_from (s : KwState) (acc0 : List Item) (ts : List String) (ib : List Item)
+    (h : (match kwRun (s, []) ts with | .ok st => kwFinish st | .error e => .error e) = .ok ib) :
+    (match kwRun (s, acc0) ts with | .ok st => kwFinish st | .error e => .error e) = .ok (acc0 ++ ib) := by
+  have hr := kwRun_acc ts s [] acc0
+  simp only [List.append_nil] at hr
+  rw [hr]
+  cases hk : kwRun (s, []) ts with
+  | error e => simp [hk] at h
+  | ok r =>
+    obtain ⟨s', acc'⟩ := r
+    simp only [hk] at h
+    simp only [Except.map, kwFinish_acc, h]
+
+/-- **the token-level reading commutes with `apply_but`**: if the options of cell n and the BUT options
+each read as item lists, and the BUT options begin with a keyword (not with a number, which a trailing
+FILL/TRCL of cell n would swallow), then the concatenated options read as the concatenated items — so
+the item-level theorems above apply to what `parse_keywords` does on the tokens -/
+theorem grouping_commutes_with_but (a b : List String) (ia ib : List Item)
+    (ha : groupTokens a = .ok ia) (hb : groupTokens b = .ok ib)
+    (hb0 : ∀ t, b.head? = some t → numericLead t = false) :
+    groupTokens (applyBut a b) = .ok (ia ++ ib) := by
+  unfold groupTokens applyBut at *
+  rw [kwRun_append]
+  cases hka : kwRun (KwState.idle, []) a with
+  | error e => simp [hka] at ha
+  | ok r =>
+    obtain ⟨s, acc⟩ := r
+    simp only [hka] at ha ⊢
+    cases b with
+    | nil =>
+      simp only [kwRun, kwFinish] at hb
+      cases hb
+      simp only [kwRun, ha, List.append_nil]
+    | cons t ts =>
+      have ht : numericLead t = false := hb0 t rfl
+      simp only [kwRun] at hb ⊢
+      have hstep0 : kwStep (KwState.idle, []) t = .ok (startKeyword t, []) := rfl
+      rw [hstep0] at hb
+      simp only at hb
+      cases s with
+      | idle =>
+        simp only [kwFinish] at ha
+        cases ha
+        have : ∀ x : List Item, kwStep (KwState.idle, x) t = .ok (startKeyword t, x) := fun _ => rfl
+        rw [this]
+        exact finish_run_from (startKeyword t) _ ts ib hb
+      | fillNums star u ns =>
+        simp only [kwFinish] at ha
+        cases ha
+        have : kwStep (KwState.fillNums star u ns, acc) t = .ok (startKeyword t, acc ++ [.fill star u ns]) := by
+          simp [kwStep, ht]
+        rw [this]
+        exact finish_run_from (startKeyword t) _ ts ib hb
+      | trclNums star ns =>
+        simp only [kwFinish] at ha
+        cases ha
+        have : kwStep (KwState.trclNums star ns, acc) t = .ok (startKeyword t, acc ++ [.trcl star ns]) := by
+          simp [kwStep, ht]
+        rw [this]
+        exact finish_run_from (startKeyword t) _ ts ib hb
+      | wantImp ps => simp [kwFinish] at ha
+      | wantU => simp [kwFinish] at ha
+      | wantMat => simp [kwFinish] at ha
+      | wantRho => simp [kwFinish] at ha
+      | wantLat => simp [kwFinish] at ha
+      | fillFirst star => simp [kwFinish] at ha
+
+/-- hence, at the token level: an option of the LIKE-BUT card has the value the BUT tokens give it, else the
+value of cell n's tokens -/
+theorem like_but_tokens (f : Field) (hf : f ≠ .imp) (a b : List String) (ia ib : List Item)
+    (ha : groupTokens a = .ok ia) (hb : groupTokens b = .ok ib)
+    (hb0 : ∀ t, b.head? = some t → numericLead t = false) :
+    ∃ k, parseKeywords (applyBut a b) = .ok k ∧
+      get k f = match lastOf f ib with
+        | some i => some i
+        | none => get (applyItems ia) f := by
+  refine ⟨applyItems (ia ++ ib), ?_, like_but f hf ia ib⟩
+  simp [parseKeywords, grouping_commutes_with_but a b ia ib ha hb hb0, Except.map]
+
 example : get (applyItems ([.mat "1", .rho "-2.5", .u "3", .imp ["n"] "1"] ++ [.rho "-1.0", .u "4"])) .rho
     = some (.rho "-1.0") := by decide
 
